@@ -17,12 +17,14 @@ from ..compile import World
 from ..ctx import CTX, RunTooBig
 from ..history import History, canon, canon_outcome, digest
 from ..rng import Streams, chance, pick, weighted
-from ..sim import apply_op, build_sim
+from .. import seams
+from ..sim import apply_knobs, apply_op, build_sim, set_input
 from ..world import ExprGen, gen_inputs, gen_request, gen_situation, gen_world
 from . import Result
 from .c06_c07 import call_update, gen_range
 
 from openfisca_core.reforms import Reform
+from openfisca_core.tools.simulation_dumper import dump_simulation, restore_simulation
 
 PROPERTY = "C14"
 LEVEL = "exploration"
@@ -315,20 +317,56 @@ def make_reform(base, world, spec, mods, fail_after):
     return cls(base)
 
 
-def evaluate(system, world, scn, entry, spec=None, knobs=None):
+def evaluate(system, world, scn, entry, spec=None, knobs=None, engine=False, res=None):
+    """`engine`: this is the derived system under test (not the reference rebuilt from
+    the specification, whose neutralised variables are plain formula-less variables
+    that must not be given inputs): inputs of neutralised variables are handed to it
+    all the same - it is to ignore them, whichever way they arrive."""
     si, var, period = entry
     s = scn["situations"][si]
     inputs = s["inputs"]
+    ignored = []
     if spec is not None:
         neutral = {v["name"] for v in spec["variables"] if v.get("neutralized")}
+        if engine:
+            ignored = [i for i in inputs if i[0] in neutral and i[0] in system.variables]
         inputs = [i for i in inputs if i[0] not in neutral]
     names = set(system.variables)
     inputs = [i for i in inputs if i[0] in names]
     try:
-        sim = build_sim(world, s["situation"], knobs or {}, inputs, tbs=system)
+        if ignored and (si + len(var) + len(period)) % 2 and _same_shape(world, spec, ignored):
+            # route "restore": the values sit in a dump made under the base system
+            if res is not None:
+                res.count("probe:neutralised_inputs_arrive_through_a_restored_dump")
+            donor = build_sim(world, s["situation"], {}, ignored, tbs=world.tbs)
+            seams.SimFS._uniq += 1
+            directory = f"/sim/c14dump{seams.SimFS._uniq}"
+            dump_simulation(donor, directory)
+            sim = restore_simulation(directory, system)
+            apply_knobs(sim, knobs or {})
+            for i in inputs:
+                try:
+                    set_input(sim, world, *i)
+                except Exception:  # noqa: BLE001,S110  (as build_sim: refused alike everywhere)
+                    pass
+        else:
+            if ignored and res is not None:
+                res.count("probe:neutralised_inputs_arrive_through_set_input")
+            sim = build_sim(world, s["situation"], knobs or {}, inputs + ignored, tbs=system)
     except Exception as e:  # noqa: BLE001
         return ["build-exc", type(e).__name__]
     return canon_outcome(apply_op(sim, world, ["calculate", var, period]))
+
+
+def _same_shape(world, spec, inputs):
+    """The neutralised variables still have the type, entity and definition period the
+    base system gave them (a dump made under the base system fits)."""
+    now = {v["name"]: v for v in spec["variables"]}
+    for name, _period, _values in inputs:
+        a, b = world.var_specs.get(name), now.get(name)
+        if a is None or b is None or any(a.get(k) != b.get(k) for k in ("type", "entity", "unit", "enum", "set_input")):
+            return False
+    return True
 
 
 def fingerprint(system, world, scn):
@@ -391,9 +429,8 @@ def run(scn) -> Result:
     H = History()
     world = World(scn["world"])
     scratch_worlds = []
-    from .. import seams
-
-    env = seams.Env(ids=seams.SimId())  # S6: identities of discarded systems / trees are reused
+    # S6: identities of discarded systems / trees are reused; S2: dumps go to a simulated disk
+    env = seams.Env(ids=seams.SimId(), fs=seams.SimFS())
     env.install()
     try:
         with warnings.catch_warnings():
@@ -455,14 +492,14 @@ def _run(scn, world, res, H, scratch_worlds):
         scratch_worlds.append(ref_world)
         res.count("clause:C14.derived")
         for entry in scn["battery"] + extra_battery(spec, scn):
-            got = evaluate(systems[sid], world, scn, entry, spec)
+            got = evaluate(systems[sid], world, scn, entry, spec, engine=True, res=res)
             want = evaluate(ref_world.tbs, ref_world, scn, entry, spec)
             if got != want:
                 v = next((v for v in spec["variables"] if v["name"] == entry[1]), {})
                 reads_annual = _reads_annualized(spec, entry[1])
                 # mechanism probe for D12: with a larger spiral budget the annualised
                 # variable's read of its own January value is not cut
-                roomy = evaluate(systems[sid], world, scn, entry, spec, knobs={"max_spiral_loops": 3}) if reads_annual else None
+                roomy = evaluate(systems[sid], world, scn, entry, spec, knobs={"max_spiral_loops": 3}, engine=True) if reads_annual else None
                 res.violate("C14.derived", step, system=sid, after=what, entry=entry, expected=want, got=got,
                             annualized=bool(v.get("annualized")), neutralized=bool(v.get("neutralized")),
                             month=entry[2][5:7] if len(entry[2]) == 7 else None, reads_annualized=reads_annual,
